@@ -32,8 +32,8 @@ MANIFEST = {'engines': ['E1-enum', 'E2-explore'],
 LEARNERS = ['QLearning', 'SARSA', 'ExpectedSARSA', 'DoubleQLearning']
 STEP = [0.5, 1.0, 0.0]
 EPS = [0.2, 0.0, 1.0]
-TEMP = [0.0, 1.0]
-INITQ = ['zero', 'one', 'callable']
+TEMP = [0.0, 1.0, 0.01]      # 0.01: a small positive temperature (Q-values / temperature of several hundred)
+INITQ = ['zero', 'one', 'callable', 'minus8']      # -8: with the temperature 0.01 the exponents are around -800
 EPISODES = [2, 1, 3]
 SLAB = ['int', 'rev', 'str', 'mix', 'tup', 'fd', 'falsy']
 ALAB = ['ab', 'rev', 'ab', 'mix', 'rev', 'fd', 'falsy']
@@ -65,7 +65,7 @@ def items(tier, seed):
         cfgs = []
         for j in range(k):
             x = i * k + j + seed
-            cfgs.append((x % 3, (x // 3 + j) % 3, (x // 2) % 2, (x // 5 + j) % 3, (x // 7) % 3))
+            cfgs.append((x % 3, (x // 3 + j) % 3, (x // 2) % 3, (x // 5 + j) % 4, (x // 7) % 3))
         yield (it, (i + seed) % len(SLAB), tuple(sorted(set(cfgs))))
 
 
@@ -104,6 +104,8 @@ def check(item, tier):
                     iq, iqf = 0.0, (lambda s, a: 0.0)
                 elif INITQ[qi] == 'one':
                     iq, iqf = 1.0, (lambda s, a: 1.0)
+                elif INITQ[qi] == 'minus8':
+                    iq, iqf = -8.0, (lambda s, a: -8.0)
                 else:
                     iqf = lambda s, a: 0.25 * (mdp.s_of[s] + 1) - (0.5 if mdp.a_of[a] == 'b' else 0.0)
                     iq = iqf
@@ -307,8 +309,12 @@ def check(item, tier):
                     fps[tuple(e.devs())] = (h, repr(sorted((repr(k), sorted((repr(x), round(v, 12)) for x, v in dict(row_).items()))
                                                            for k, row_ in dict(out.q_values).items())))
 
-                with patched_random(ex):
-                    ex.explore(body, on_exec)
+                try:
+                    with patched_random(ex):
+                        ex.explore(body, on_exec)
+                except (ZeroDivisionError, OverflowError, FloatingPointError) as e:
+                    r.violation('learner_arithmetic_exception', dict(ctx, error=repr(e)[:200], schedule=ex.devs()), item)
+                    continue
                 r.count('states', ex.states)
                 r.count('transitions', ex.transitions)
                 if ex.capped:
